@@ -112,3 +112,49 @@ func AtomicOp[T any](site uint32, p *T) {
 	SyncRelease(obj)
 	curTask.pending = append(curTask.pending, obj)
 }
+
+// ---- sync.Pool ----
+//
+// A real sync.Pool hands back "any object previously Put, or New()": which one
+// depends on the P the goroutine happens to run on and on GC timing, neither of
+// which the simulator controls. With SimPools on, every pool is a simulator-owned
+// LIFO list: Get returns the most recently Put object (the choice that reuses an
+// object soonest, i.e. the adversarial one for use-after-Put bugs) and is
+// identical in every process. Put happens-before the Get that returns the object.
+
+// SimPools is switched on by the harness; off, Get/Put go to the real pool.
+var SimPools bool
+
+var pools = map[*sync.Pool][]any{}
+
+// ResetPools forgets every pooled object (called between cases).
+func ResetPools() { pools = map[*sync.Pool][]any{} }
+
+func PoolGet(p *sync.Pool) any {
+	if !SimPools {
+		return p.Get()
+	}
+	SyncAcquire(unsafe.Pointer(p))
+	if l := pools[p]; len(l) > 0 {
+		v := l[len(l)-1]
+		pools[p] = l[:len(l)-1]
+		PoolReuses++
+		return v
+	}
+	if p.New != nil {
+		return p.New()
+	}
+	return nil
+}
+
+func PoolPut(p *sync.Pool, v any) {
+	if !SimPools {
+		p.Put(v)
+		return
+	}
+	SyncRelease(unsafe.Pointer(p))
+	pools[p] = append(pools[p], v)
+}
+
+// PoolReuses counts Gets served from a simulated pool.
+var PoolReuses uint64
